@@ -298,7 +298,17 @@ func (v *Value) Len() int {
 func (v *Value) Slice(i, j int) *Value {
 	switch v.getResolvedValue().Kind() {
 	case reflect.Array, reflect.Slice:
-		return AsValue(v.getResolvedValue().Slice(i, j).Interface())
+		rv := v.getResolvedValue()
+		if rv.Kind() == reflect.Array && !rv.CanAddr() {
+			// reflect can't slice an array which is not addressable (e. g. an
+			// array value in the context); collect the items instead.
+			items := make([]any, 0, max(j-i, 0))
+			for idx := i; idx < j; idx++ {
+				items = append(items, rv.Index(idx).Interface())
+			}
+			return AsValue(items)
+		}
+		return AsValue(rv.Slice(i, j).Interface())
 	case reflect.String:
 		runes := []rune(v.getResolvedValue().String())
 		return AsValue(string(runes[i:j]))
